@@ -75,10 +75,11 @@ pub fn gen(rng: &mut Rng, n: usize, out: &mut Vec<String>) {
     }
     for _ in 0..n / 10 { let k = 1 + rng.below(12) as usize; out.push(format!("parse {}", hex(&rng.bytes(k)))); }
     // length octets at their edges (F38): the indefinite-form octet, nine length octets led by zero (valid) and by one (2^64 more), 127 of them
-    for w in ["0480", "3080", "30030480ff", "0480ff", "04890000000000000000016161", "04890100000000000000016161", "3089000000000000000003040161ff", "308901000000000000000304016 1ff", "04880000000000000001ff", "0488ffffffffffffffff", "04810161", "048100"] {
+    for w in ["0480", "3080", "30030480ff", "0480ff", "04890000000000000000016161", "04890100000000000000016161", "3089000000000000000003040161ff", "308901000000000000000304016 1ff", "04880000000000000001ff", "0488ffffffffffffffff", "04810161", "048100", "0489000000000000000000", "308a00000000000000000000", "04880000000000000000", "30820000", "300e0489000000000000000000 0101ff"] {
         out.push(format!("parse {}", w.replace(' ', "")));
     }
     { let mut e = vec![0x04u8, 0xff]; e.extend([0u8; 126]); e.push(2); e.extend([7u8, 8, 9]); out.push(format!("parse {}", hex(&e)));
+      let mut e = vec![0x04u8, 0xff]; e.extend([0u8; 127]); e.extend([7u8, 8]); out.push(format!("parse {}", hex(&e)));
       let mut e = vec![0x04u8, 0xff]; e.push(1); e.extend([0u8; 125]); e.push(2); e.extend([7u8, 8, 9]); out.push(format!("parse {}", hex(&e))); }
     // nesting around the depth limit
     for d in [1usize, 2, MAX_DEPTH - 1, MAX_DEPTH, MAX_DEPTH + 1, MAX_DEPTH + 2, MAX_DEPTH + 3, 300] {
